@@ -433,9 +433,13 @@ def std_specs(ctx, sanitize=False, variants=True, cpp=True):
     return res
 
 
-def value_cases(camp, rng, n_common, n_wild):
+def value_cases(camp, rng, n_common, n_wild, n_boundary=10):
     cases = []
     for ti, t in enumerate(camp.types):
+        for j in range(n_boundary):
+            cases.append({"ti": ti, "v": common_value(t, dsdl.boundary_value(t, j)), "klass": "common", "case": camp.new_case(), "prefill": 0xFF if j % 2 else 0})
+            if n_wild:
+                cases.append({"ti": ti, "v": dsdl.boundary_value(t, j, wild=True), "klass": "wild", "case": camp.new_case(), "prefill": 0 if j % 2 else 0xFF})
         for j in range(n_common):
             mode = "zero" if j == 0 else "max" if j == 1 else "rand"
             v = common_value(t, dsdl.rand_value(rng, t, wild=False, f64_ok=False, mode=mode))
